@@ -92,6 +92,27 @@ CLAIMED = {
         note="Trusted: Coq kernel; models tied by byte-exact correspondence at both settings of the option.",
         technique="Coq proof (filtering commutes with the session fold and the builder) + paired exports with and without -a",
         design="3 C13"),
+    "C09": dict(
+        text="Proof (partial): Coq theorems over a model of keylog_reader.get_keys_from_string and of run(): C09_line_ends (the keys of a text are the keys of its lines, LF or "
+             "CRLF), C09_decorations / C09_comment / C09_blank (lines that are not 'LABEL random secret' contribute nothing wherever they stand), C09_hex_case (upper- or "
+             "lower-case hex digits give the same key), C09_blocks_in_front (secrets in one or several decryption-secrets blocks in front of the packets = the same secrets in "
+             "a file, for any traffic, also as the only source), C09_blocks_anywhere_tls (for TLS over TCP the blocks may stand anywhere). Independence of line ORDER and of "
+             "DUPLICATE lines has no theorem yet (the derivations take the last line per label resp. the first line of the connection, which coincide on a consistent log): "
+             "decided by the shuffled/duplicated supplies of the check. The text model is tied to the code by correspondence on structured and near-miss texts.",
+        note="Trusted: Coq kernel; key-log text is ASCII; pcapng block framing of DSBs and open()/decode are not modelled (the model starts at the text); working-directory "
+             "independence is exercised by the check only.",
+        technique="Coq proof (line splitting lemmas, deterministic regex matcher, folds that only append to the key log) + byte-identical exports under ten ways of supplying the secrets",
+        design="3 C09"),
+    "C10": dict(
+        text="Proof: Coq theorems C10_only_watched_ports / C10_session_on_watched_port (a TCP packet that belongs to no session opens one iff one of its ports is a default or "
+             "-p port; roles by C07_roles), C10_exported_ports_tls / C10_exported_ports_quic (client port never changed; server port original without -m, mapped for listed "
+             "ports and 8080 otherwise with -m -- the same rule for both builders), C10_command_line (any sequence of '-p v+', '-m v*' and other options: watched ports = "
+             "443, 44330, 443 and every -p value in order; map from the last -m, bare -m = 443:8080; original ports kept iff no -m), C10_trailing_comma, and "
+             "C10_source_constants tying the constants regenerated from main.py and both builders (default lists, nargs, action, 8080) to the model. Closed under the global context.",
+        note="Trusted: Coq kernel; argparse modelled for the -p/-m part (option/value tokens, decimal digit strings) and tied to the real arg_parser_init + get_port_map by "
+             "correspondence on well-formed and malformed command lines; py2coq G1 constants.",
+        technique="Coq proof (fold over option groups) + command-line correspondence + end-to-end port oracle computed from the raw argv",
+        design="3 C10"),
     "C05": dict(
         text="Proof (partial): Coq theorems over the model of Session.handle_packet / extract_*_buf / get_tls_records: C05_segmentation_and_duplicates (per direction: ANY "
              "cut of a well-framed record stream into segments, from ANY initial sequence number modulo 2^32 -- streams across 2^32 included -- with ANY retransmitted "
